@@ -179,6 +179,15 @@ def _loops(run, F, PV, C):
         run.ok("R1", f"{modname}: known loops only", mod.relpath)
 
 
+# fields every element constructor requires (rule R2 checks that each is guarded; rule R3 that to_dict always writes them)
+REQUIRED_FIELDS = {
+    "admin.certificate_v1.HSMCertificateElement": ["name", "signed_by", "message", "signature"],
+    "admin.certificate_v2.HSMCertificateV2ElementSGXQuote": ["name", "signed_by", "message", "custom_data", "signature"],
+    "admin.certificate_v2.HSMCertificateV2ElementSGXAttestationKey": ["name", "signed_by", "message", "key", "auth_data", "signature"],
+    "admin.certificate_v2.HSMCertificateV2ElementX509": ["name", "signed_by", "message"],
+}
+
+
 def _guards(run, F, PV, C):
     P, A = run.P, run.A
     run.rule("R2", "Guards before use (facts compared with local names expanded and `not (a == b)` folded): from_jsonfile builds a "
@@ -214,10 +223,7 @@ def _guards(run, F, PV, C):
                       key="HSMCertificateV2Element.from_dict|type-guard", where=fd.loc(r),
                       message="from_dict dispatches on an element type it did not check")
     # required fields per class: every key read by the constructor is guarded by a raise
-    for cname, keys in (("admin.certificate_v1.HSMCertificateElement", ["name", "signed_by", "message", "signature"]),
-                        ("admin.certificate_v2.HSMCertificateV2ElementSGXQuote", ["name", "signed_by", "message", "custom_data", "signature"]),
-                        ("admin.certificate_v2.HSMCertificateV2ElementSGXAttestationKey", ["name", "signed_by", "message", "key", "auth_data", "signature"]),
-                        ("admin.certificate_v2.HSMCertificateV2ElementX509", ["name", "signed_by", "message"])):
+    for cname, keys in sorted(REQUIRED_FIELDS.items()):
         ci = P.cls(cname)
         ini = P.method(ci, "__init__")
         ef = " ; ".join(sorted(F.exit_texts(ini, ci, PV)))
@@ -309,10 +315,19 @@ def _roundtrip(run, PV):
         run.require(len(dicts) == 1, f"{ci.name}.to_dict: dict literal not found")
         for k, v in zip(dicts[0].keys, dicts[0].values):
             emitted[k.value] = v
+        F_ = Facts(A)
         for n in A.own_nodes(td):        # result["tweak"] = self.tweak
             if isinstance(n, ast.Assign) and isinstance(n.targets[0], ast.Subscript) \
                     and isinstance(n.targets[0].slice, ast.Constant):
                 emitted[n.targets[0].slice.value] = n.value
+                # a key written only under a condition is sometimes missing from the saved file: fine for a field the loader treats as optional,
+                # a load error after save for one it requires
+                conds_ = [f.text() for sn_ in g.nodes_of(n) for f in F_.local(td, ci, sn_)]
+                kname = n.targets[0].slice.value
+                req_ = kname in REQUIRED_FIELDS.get(cq, ())
+                run.check("R3", not (conds_ and req_), f"{ci.name}.to_dict: `{kname}` is always written or optional for the loader", key=f"{ci.name}.to_dict|{kname}|conditional",
+                          where=td.loc(n), message=f"{ci.name}.to_dict writes `{kname}` only when {conds_[:2]}, but the constructor requires the field: a certificate that "
+                          "loads (and validates) cannot be loaded again after it is saved")
         want_keys = set(reads) | ({"type"} if cq in tname else set())
         run.check("R3", set(emitted) == want_keys, f"{ci.name}.to_dict keys == constructor keys",
                   key=f"{ci.name}.to_dict|keys", where=td.loc(),
